@@ -97,7 +97,7 @@ template<class R> static bool run_case(const std::vector<std::string> &f, std::o
             std::vector<std::string> hx;
             for(auto &l : bl) hx.push_back(hex(l.data(), l.size()));
             std::sort(hx.begin(), hx.end());
-            out << " body=" << join(hx, "|") << " cls=-";
+            out << " body=" << join(hx, "|") << " cls=- cond=-";
         } else {
             if(f.size() < 5) return false;
             auto ls = body_lines(body);
